@@ -83,6 +83,14 @@ func counterFloors(tier string) map[string]int64 {
 		"feat_gen_page":                75 * k,
 		"feat_gen_pages":               75 * k,
 		"feat_gen_tpage":               90 * k,
+		// visibility as an inherited property: hidden / collapse inline boxes and inline-blocks,
+		// visibility:visible declared again inside hidden elements (gen.vis)
+		"hidden_by_inline_textboxes":                 230 * k,
+		"reshown_draws_matched":                      630 * k,
+		"reshown_in_hidden_inline_box_draws_matched": 170 * k,
+		"feat_visibility_hidden_inline":              300 * k,
+		"feat_visibility_visible_in_hidden":          110 * k,
+		"feat_visibility_collapse":                   100 * k,
 	}
 }
 
@@ -94,6 +102,9 @@ var (
 	allowEmptyRowGroup   = true  // F-C02-fixed-layout-empty-first-group (fixed: c3100ed)
 	allowGotextPreserved = true  // F-C02-gotext-preserved-space-text-not-cut (fixed: 58bd785)
 	allowFirstLetter     = true  // F-C02-first-letter-lost repaired (3a0d694 inline form, c6c5031 float form)
+	// visibility on inline boxes / inline-blocks and visibility:visible inside hidden elements
+	// (C02_ALLOW=novisreset, development only, turns the sub-domain off to measure its cost)
+	allowVisibilityReset = true
 )
 
 func init() {
@@ -109,6 +120,8 @@ func init() {
 			allowFirstLetter = true
 		case "nopagecounters":
 			pcPercent = 0
+		case "novisreset":
+			allowVisibilityReset = false
 		}
 	}
 }
@@ -142,8 +155,13 @@ type gen struct {
 	longOK  bool // long words (broken mid-word) allowed
 	feat    map[string]bool
 	hidden  []string
+	visible []string // ids of elements that declare visibility:visible inside a hidden element
 	items   []Item
-	inHide  bool
+	inHide  bool       // inside an element that declares visibility:hidden / collapse (at any depth)
+	effHide bool       // the inherited visibility at this point is not `visible`
+	vr      *rand.Rand // own random stream of the visibility decisions (see vis)
+	caseIdx int
+	noVis   bool // inside a paragraph with ::first-letter: no visibility declaration (see paragraph)
 	noBreak bool // inside a box that must not contain forced breaks (bounded float)
 	ahem    bool
 	inA     bool
@@ -323,7 +341,13 @@ func (g *gen) inlineContent(n int) {
 			if (tag == "small" || tag == "sub" || tag == "sup") && g.maxFS < float64(g.fs) {
 				g.maxFS = float64(g.fs)
 			}
-			g.sb.WriteString("<" + tag + extra + g.inlineStyle() + ">")
+			ist := g.inlineStyle()
+			vid := ""
+			vdecl, vrestore := g.vis(&vid, "v", 0.07, 0.4)
+			if vid != "" {
+				extra += ` id="` + vid + `"`
+			}
+			g.sb.WriteString("<" + tag + extra + addDecl(ist, vdecl) + ">")
 			g.inInl++
 			wasA := g.inA
 			if tag == "a" {
@@ -333,6 +357,7 @@ func (g *gen) inlineContent(n int) {
 			g.inA = wasA
 			g.inInl--
 			g.sb.WriteString("</" + tag + ">")
+			vrestore()
 		case x < 0.15:
 			g.sb.WriteString(g.pick("<br>", "<br>", "<br/>\n"))
 			g.lineBreaks++
@@ -383,7 +408,13 @@ func (g *gen) inlineBlock() {
 		st = append(st, g.pick("opacity:0.5", "position:relative;z-index:1", "position:relative", "transform:scale(0.5)", "overflow:hidden"))
 		g.f("stacking_inline_block")
 	}
-	g.sb.WriteString(`<span style="` + strings.Join(st, ";") + `">`)
+	vid := ""
+	vdecl, vrestore := g.vis(&vid, "v", 0.05, 0.4)
+	defer vrestore()
+	if vdecl != "" {
+		st = append(st, vdecl)
+	}
+	g.sb.WriteString(`<span` + attrs(vid, st) + `>`)
 	g.lineBreaks += 2
 	g.inInl++
 	g.depth++
@@ -649,8 +680,86 @@ func (g *gen) hideMaybe(id *string, st *[]string) (restore func()) {
 	*st = append(*st, "visibility:hidden")
 	g.hidden = append(g.hidden, *id)
 	g.inHide = true
+	g.effHide = true
 	g.f("visibility_hidden")
-	return func() { g.inHide = false }
+	return func() { g.inHide = false; g.effHide = false }
+}
+
+// visRand is the random stream of the visibility decisions that were added after the calibration
+// of the rest of the generator (hidden inline boxes, visibility:visible inside hidden elements,
+// collapse).  It is seeded from the generator state at its first use - a function of (seed, case,
+// tier) like everything else - so that the structure of the generated documents (the draws of
+// g.r) is the same with and without these decisions.
+func (g *gen) visRand() *rand.Rand {
+	if g.vr == nil {
+		g.vr = rand.New(rand.NewSource(int64(g.caseIdx)*1000003 + int64(g.wid)*7919 + int64(g.sb.Len())*104729 + int64(g.fs)))
+	}
+	return g.vr
+}
+
+// vis decides the `visibility` declaration of one more element (CSS 2.1 section 11.2: inherited;
+// `hidden` boxes are laid out and not painted, descendants are painted again when they declare
+// `visible`; `collapse` on anything but table rows / columns means `hidden`).
+//   - where the inherited value hides the element: `visible` with probability pShow;
+//   - inside a re-shown element: hidden again with probability 0.12;
+//   - elsewhere: `hidden` / `collapse` with probability pHide (0 for the block-level elements,
+//     which hideMaybe covers).
+//
+// It returns the declaration ("" = none), gives the element an id when it declares something and
+// returns the function that restores the inherited state after the element.
+func (g *gen) vis(id *string, prefix string, pHide, pShow float64) (decl string, restore func()) {
+	if !allowVisibilityReset || g.inHdr || g.noVis {
+		return "", func() {}
+	}
+	wasIn, wasEff := g.inHide, g.effHide
+	restore = func() { g.inHide, g.effHide = wasIn, wasEff }
+	switch {
+	case g.effHide:
+		if g.visRand().Float64() >= pShow {
+			return "", restore
+		}
+		decl = "visibility:visible"
+		g.effHide = false
+		g.f("visibility_visible_in_hidden")
+	case g.inHide:
+		if g.visRand().Float64() >= 0.12 {
+			return "", restore
+		}
+		decl = "visibility:hidden"
+		g.effHide = true
+		g.f("visibility_hidden_in_visible")
+	default:
+		if pHide == 0 || g.visRand().Float64() >= pHide {
+			return "", restore
+		}
+		decl = "visibility:hidden"
+		if g.visRand().Intn(4) == 0 {
+			decl = "visibility:collapse"
+			g.f("visibility_collapse")
+		}
+		g.inHide, g.effHide = true, true
+		g.f("visibility_hidden_inline")
+	}
+	if *id == "" {
+		*id = g.newID(prefix)
+	}
+	if g.effHide {
+		g.hidden = append(g.hidden, *id)
+	} else {
+		g.visible = append(g.visible, *id)
+	}
+	return decl, restore
+}
+
+// addDecl adds one declaration to a ` style="..."` attribute text (possibly empty).
+func addDecl(styleAttr, decl string) string {
+	if decl == "" {
+		return styleAttr
+	}
+	if styleAttr == "" {
+		return ` style="` + decl + `"`
+	}
+	return strings.TrimSuffix(styleAttr, `"`) + ";" + decl + `"`
 }
 
 var paraTags = []string{"p", "p", "p", "p", "div", "div", "h2", "h3", "blockquote", "address", "pre"}
@@ -702,6 +811,12 @@ func (g *gen) paragraph() {
 	st := g.blockStyle(true)
 	id := ""
 	restore := g.hideMaybe(&id, &st)
+	if len(g.hidden) == 0 || g.hidden[len(g.hidden)-1] != id {
+		if vdecl, vrestore := g.vis(&id, "v", 0, 0.3); vdecl != "" {
+			st = append(st, vdecl)
+			restore = vrestore
+		}
+	}
 	if g.pc && !g.inHdr && g.chance(0.3) {
 		if id == "" {
 			id = g.newID("e")
@@ -721,6 +836,11 @@ func (g *gen) paragraph() {
 		}
 		g.vsum += 4
 		g.f("first_letter")
+		// The letter box takes the visibility of the paragraph in webrender; when the letter comes
+		// from a nested inline element with another visibility, the fictional tag sequence of CSS 2.1
+		// section 5.12.2 puts it inside that element.  Which run is "visible" is then a question of
+		// the cascade, not of C02: no visibility declaration inside such a paragraph.
+		g.noVis = true
 	}
 	g.sb.WriteString("<" + tag + attrs(id, st) + ">")
 	n := 1 + g.r.Intn(12)
@@ -729,6 +849,7 @@ func (g *gen) paragraph() {
 	}
 	g.inlineContent(n)
 	g.sb.WriteString("</" + tag + ">")
+	g.noVis = false
 	restore()
 }
 
@@ -741,6 +862,12 @@ func (g *gen) container() {
 	st := g.blockStyle(true)
 	id := ""
 	restore := g.hideMaybe(&id, &st)
+	if len(g.hidden) == 0 || g.hidden[len(g.hidden)-1] != id {
+		if vdecl, vrestore := g.vis(&id, "v", 0, 0.3); vdecl != "" {
+			st = append(st, vdecl)
+			restore = vrestore
+		}
+	}
 	g.sb.WriteString("<" + tag + attrs(id, st) + ">")
 	g.depth++
 	n := 1 + g.r.Intn(4)
@@ -792,11 +919,24 @@ func (g *gen) list() {
 			}
 			keep = append(keep, d)
 		}
-		if g.inHide {
-			// the marker of an item inside a hidden element is hidden too, wherever its box ends up
-			g.hidden = append(g.hidden, id)
-		}
+		hiddenBefore, visibleBefore := len(g.hidden), len(g.visible)
+		inheritedHide, inheritedIn := g.effHide, g.inHide
 		restore := g.hideMaybe(&id, &keep)
+		if len(g.hidden) == hiddenBefore {
+			if vdecl, vrestore := g.vis(&id, "v", 0, 0.3); vdecl != "" {
+				keep = append(keep, vdecl)
+				restore = vrestore
+			}
+		}
+		if len(g.hidden) == hiddenBefore && len(g.visible) == visibleBefore {
+			// no declaration of its own: the remainder of a marker split at a page bottom hangs under
+			// the root box, so the inherited visibility of the item is recorded with its id
+			if inheritedHide {
+				g.hidden = append(g.hidden, id)
+			} else if inheritedIn {
+				g.visible = append(g.visible, id)
+			}
+		}
 		if g.pc && !g.inHdr {
 			if g.chance(0.2) {
 				g.pseudo(id, false)
@@ -1026,7 +1166,7 @@ func splitNonEmpty(s string) []string {
 
 // Generate builds case i.
 func Generate(r *rand.Rand, i int, tier string) Input {
-	g := &gen{r: r, sb: &strings.Builder{}, last: map[*Flow]string{}, pend: map[*Flow][]*Flow{}, feat: map[string]bool{}}
+	g := &gen{r: r, caseIdx: i, sb: &strings.Builder{}, last: map[*Flow]string{}, pend: map[*Flow][]*Flow{}, feat: map[string]bool{}}
 	main := &Flow{ID: "", Kind: "main"}
 	g.flows = append(g.flows, main)
 	g.stack = []*Flow{main}
@@ -1218,7 +1358,7 @@ func Generate(r *rand.Rand, i int, tier string) Input {
 		strings.Join(g.css, "") +
 		"</style></head><body>\n" + g.body() + "</body></html>"
 
-	in := Input{HTML: html, Engine: engine, Hidden: g.hidden, Items: g.items, Mode: mode, MarginCounter: marginParts}
+	in := Input{HTML: html, Engine: engine, Hidden: g.hidden, Visible: g.visible, Items: g.items, Mode: mode, MarginCounter: marginParts}
 	for _, gc := range g.gens {
 		in.Generated = append(in.Generated, *gc)
 	}
